@@ -448,6 +448,13 @@ func RenderGenBank(r *fw.Rng, a Annotation, translate func(Feature) string) stri
 			quals = sh
 		}
 		for _, q := range quals {
+			if strings.HasPrefix(q, "/note=") && r.Chance(0.5) {
+				// a free-text value wrapped over several lines; a continuation line may begin with
+				// any character of the text, also '/' or a word that looks like a qualifier
+				sb.WriteString("                     /note=\"synthetic feature; see https://example.org\n")
+				sb.WriteString("                     " + []string{"/record?id=" + f.ID + " for details", "/gene=" + f.Name + "x is not this gene", "two words"}[r.Intn(3)] + "\"\n")
+				continue
+			}
 			sb.WriteString("                     " + q + "\n")
 		}
 		prot := translate(f)
